@@ -25,6 +25,9 @@ def family(sig):
     return sig.rsplit("|", 1)[0]
 
 
+FOREIGN = ("innername", "objname")
+
+
 def gen(rng, tier):
     n = rng.choice([0, 1, 2, 2, 3, 4])
     chain = []
@@ -38,6 +41,15 @@ def gen(rng, tier):
             "shutdown_first": rng.random() < 0.12}
     spec["sim"] = runner.draw_sim_cfg(rng, est=500)
     spec["sim"]["horizon_s"] = 5000
+    # (drawn last so that every other field keeps its value for a given run index)
+    # the base is a plain concurrent.futures executor - no name attribute at all - reached through the
+    # classmethod forms Executors.bind(executor, fn) / Executors.with_*(executor, ...)
+    spec["plain_base"] = rng.random() < 0.2
+    # the callable carries a `_name` of its own (a callable object keeping self._name, or a bound
+    # callable of another, named executor): that is the callable's business, never a layer's name
+    spec["fn_named"] = rng.random() < 0.4
+    if spec["plain_base"]:
+        spec["base"], spec["base_name"] = "pool", None
     return spec
 
 
@@ -45,7 +57,7 @@ def expected_names(spec):
     """Thread-name fragments each side must create: list of (prefix, name)."""
     cur = spec["base_name"] if spec["base_name"] is not None else "default"
     out = []
-    if spec["base"] == "pool":
+    if spec["base"] == "pool" and not spec.get("plain_base"):
         out.append(("ThreadPoolExecutor", spec["base_name"]))
     for L in spec["chain"]:
         if L["name"] is not None:
@@ -76,19 +88,34 @@ def run(spec, env):
         if spec["fn_kind"] == "bound":
             # the callable handed to bind() / submit() is itself a bound callable of another executor:
             # calling it returns a future, like any other future-returning callable
-            return Executors.sync().bind(work), calls
+            return (Executors.sync(name=FOREIGN[0]) if spec.get("fn_named") else Executors.sync()).bind(work), calls
         if spec["fn_kind"] == "partial":
             return functools.partial(lambda tag, *a: work(*a), "p"), calls
         if spec["fn_kind"] == "object":
             class Obj(object):
                 def __call__(self, *a):
                     return work(*a)
-            return Obj(), calls
+            o = Obj()
+            if spec.get("fn_named"):
+                o._name = FOREIGN[1]
+            return o, calls
         return work, calls
+
+    class _ClassForm(object):
+        # a plain concurrent.futures executor has no with_* / bind methods: the classmethod forms
+        def __init__(self, ex):
+            self.ex = ex
+
+        def __getattr__(self, meth):
+            return lambda *a, **kw: getattr(Executors, meth)(self.ex, *a, **kw)
+
+    def M(target):
+        return target if hasattr(target, "with_map") else _ClassForm(target)
 
     def apply(target, L):
         kw = {"name": L["name"]} if L["name"] is not None else {}
         t = L["t"]
+        target = M(target)
         if t == "map":
             return target.with_map(lambda x: ("m", x), **kw)
         if t == "flat_map":
@@ -107,6 +134,9 @@ def run(spec, env):
         return target.with_cancel_on_shutdown(**kw)
 
     def base():
+        if spec.get("plain_base"):
+            import concurrent.futures
+            return concurrent.futures.ThreadPoolExecutor(max_workers=1, thread_name_prefix="plainbase")
         kw = {"name": spec["base_name"]} if spec["base_name"] is not None else {}
         return Executors.sync(**kw) if spec["base"] == "sync" else Executors.thread_pool(max_workers=1, **kw)
 
@@ -122,7 +152,7 @@ def run(spec, env):
                 for L in spec["chain"][:spec["split"]]:
                     ex = apply(ex, L)
                 if spec["flat"]:
-                    ex = ex.with_flat_map(lambda f: f)
+                    ex = M(ex).with_flat_map(lambda f: f)
                 if spec.get("shutdown_first"):
                     the_base.shutdown(True)
                 f = ex.submit(fn, *spec["args"])
@@ -130,14 +160,14 @@ def run(spec, env):
                 for L in spec["chain"]:
                     ex = apply(ex, L)
                 if spec["flat"]:
-                    ex = ex.with_flat_map(lambda f: f)
+                    ex = M(ex).with_flat_map(lambda f: f)
                 if spec.get("shutdown_first"):
                     the_base.shutdown(True)
                 f = ex.submit(fn, *spec["args"])
             else:
                 for L in spec["chain"][:spec["split"]]:
                     ex = apply(ex, L)
-                bound = ex.flat_bind(fn) if spec["flat"] else ex.bind(fn)
+                bound = M(ex).flat_bind(fn) if spec["flat"] else M(ex).bind(fn)
                 bound0 = bound
                 if spec["flat"] and spec["chain"][spec["split"]:]:
                     # flat_bind(fn) == bind(fn).with_flat_map(identity): the flattening layer sits
@@ -247,6 +277,13 @@ def check(spec, env):
         elif b0[6] != a0[6]:
             out.append({"oracle": "equivalence", "sig": "intermediate-bound-callable-invocations",
                         "msg": "intermediate bound callable invoked the function %d times, its executor chain %d times" % (b0[6], a0[6])})
+    # a name that belongs to the callable (not to any executor or layer of the chain) never shows up
+    for (s_, e) in (("A", a), ("B", b)):
+        bad = [n for n in e[7] if any(x in n for x in FOREIGN)]
+        if bad:
+            out.append({"oracle": "names", "sig": "thread-name-foreign|%s" % s_,
+                        "msg": "side %s: thread(s) %r carry a name that was given to the callable, not to the executor or a layer; chain %r base name %r split %d fn %s"
+                               % (s_, bad, spec["chain"], spec["base_name"], spec["split"], spec["fn_kind"])})
     # names
     want = expected_names(spec) if not spec.get("shutdown_first") else []   # a shut-down base creates no thread to look at
     for (s, e) in (("A", a), ("B", b)):
@@ -274,7 +311,8 @@ def probes(spec, env):
     threads = sum(len(e[7]) for e in log if e[3] == "side")
     pr = {"chain-length": len(spec["chain"]), "split-before-bind": spec["split"], "flat_bind": 1 if spec["flat"] else 0,
           "fn:" + spec["fn_kind"]: 1, "threads-created": threads, "retries": sum(1 for e in log if e[3] == "call" and e[5] > 1),
-          "named-base": 1 if spec["base_name"] else 0, "explicit-layer-names": sum(1 for L in spec["chain"] if L["name"]),
+          "named-base": 1 if spec["base_name"] else 0, "plain-concurrent.futures-base": 1 if spec.get("plain_base") else 0,
+          "callable-with-own-_name": 1 if spec.get("fn_named") and spec["fn_kind"] in ("object", "bound") else 0, "explicit-layer-names": sum(1 for L in spec["chain"] if L["name"]),
           "abnormal-runs": 1 if abnormal(sim) else 0}
     pr["_nontrivial"] = sim.preemptions > 0 and (threads > 0 or pr["retries"] > 0)
     return pr
